@@ -1,5 +1,5 @@
 //! session: replay watch-mode histories on the real beff-wasm session code (native host, cfg beff_verif).
-//! stdin: ndjson {id, init: {path: text}, entry, steps: [{op:"edit", f: path, text} | {op:"rebuild"}]}
+//! stdin: ndjson {id, init: {path: text}, entry, steps: [{op:"edit"|"create", f: path, text} | {op:"delete", f} | {op:"rebuild"}]}
 //! stdout: ndjson {id, events: [{op, f, was_watched, built, out, fresh, cache, watched}]}
 //! Every history runs on its own thread (= its own thread-local BUNDLER); "fresh" is the same build on yet
 //! another new thread with an empty cache and the current disk.
@@ -66,6 +66,18 @@ fn run(job: Value) -> Value {
                 verif::update(&f, &text);
                 do_build = true;
             }
+        }
+        if op == "create" || op == "delete" {
+            // chokidar is subscribed to "change" only: a file that appears or disappears is not forwarded to the session
+            let f = st["f"].as_str().unwrap_or("").to_string();
+            let text = st["text"].as_str().unwrap_or("").to_string();
+            verif::with_host(|h| {
+                if op == "create" {
+                    h.disk.insert(f.clone(), text.clone());
+                } else {
+                    h.disk.remove(&f);
+                }
+            });
         }
         if do_build {
             ev["built"] = json!(true);
